@@ -43,6 +43,19 @@ class ContinueInjector(_Base):
             box.setdefault('forced', []).append((S.status.slot, S.status.iter))
 
 
+class ForceDoneInjector(_Base):
+    """order 198: raise S.status.force_done at the scripted (block, slot, iter) positions box['force_done_at'] (box['block'] is kept
+    by the harness) -- the flag shipped code raises in the switch estimator / interpolation controllers"""
+
+    ORDER = 198
+
+    def check_iteration_status(self, controller, S, **kwargs):
+        box = self.params.box
+        if (box.get('block', 0), S.status.slot, S.status.iter) in (box.get('force_done_at') or ()):
+            S.status.force_done = True
+            box.setdefault('forced_done', []).append((box.get('block', 0), S.status.slot, S.status.iter))
+
+
 class DoneInjector(_Base):
     """order 250 (after CheckConvergence): S.status.done := table[slot][iter], forced True at iter >= maxiter;
     optional box['force_done'] = set of (slot, iter) at which force_done is raised."""
